@@ -2,6 +2,7 @@ import EinoV.Oracle.GraphCase
 import EinoV.Model.C04Flat
 import EinoV.Model.C04Lazy
 import EinoV.Model.C04Key
+import EinoV.Model.C04FMap
 import EinoV.Expected.C04
 
 namespace EinoV.Oracle.C04
@@ -154,12 +155,76 @@ def handleKeyVal (c : Json) : JE Json := do
   pure (Json.mkObj [("value", value), ("stream", resS (lazyConcat strCo (keyStream kvs))),
     ("panics", Json.bool (panicsAt true kvs))])
 
+/-! ### family "fmap": map chunks through field mappings (`Model/C04FMap.lean`) -/
+
+def fvalOf (s : String) : FVal :=
+  if s == "nil" then .nilV else if s == "wrong" then .wrong else if s == "absent" then .absent
+  else .good (s.drop 5).toString
+
+def fvalStr : FVal → String
+  | .absent => "absent"
+  | .nilV => "nil"
+  | .wrong => "wrong"
+  | .good s => "good:" ++ s
+
+def fchunkOf (j : Json) : JE FChunk := do
+  (← J.asArr j).mapM (fun kv => do
+    match kv with
+    | .arr #[.str k, .str v] => pure (k, fvalOf v)
+    | _ => throw "fmap: bad chunk entry")
+
+def fmKeys (cs : List FChunk) : List Key := (cs.flatMap (·.map (·.1))).eraseDups
+
+/-- chunk operations of `map[string]any` values, for the packer model -/
+def fmCo : ChunkOps FChunk := { concatItems := fun l => concatCols l (fmKeys l), emptyErr := errEmptyStream }
+
+def fmResJ : Except Err FChunk → Json
+  | .ok t => Json.mkObj [("ok", Json.mkObj (t.map fun kv => (kv.1, Json.str (fvalStr kv.2))))]
+  | .error e => Json.mkObj [("err", Json.str (toString (repr e.cls)))]
+
+structure FmSource where
+  isStart : Bool
+  packed : Packed FChunk
+  chunks : List FChunk
+  maps : List FMapping
+
+/-- case {"kind":"fmap","target":"mapstr"|"struct"|"mapany"|"mapslice","sources":[{"key","native","chunks":[[[k,v],…],…],
+    "maps":[{"src","dst"},…]},…]}: a Workflow whose sink (a node, or END) takes fields of its sources'
+    `map[string]any` outputs; the four calls' results as {dst: value} or an error -/
+def handleFMap (c : Json) : JE Json := do
+  let target := J.strD c "target" "mapstr"
+  let checked := target != "mapany"
+  let nilable := target == "mapslice"
+  let srcs ← (← J.arr c "sources").mapM (fun sj => do
+    let cs ← (← J.arr sj "chunks").mapM fchunkOf
+    let ms ← (← J.arr sj "maps").mapM (fun mj => do
+      pure ({ src := ← J.str mj "src", dst := ← J.str mj "dst", checked := checked, nilable := nilable } : FMapping))
+    let (hi, hs, hc, ht) := natives sj
+    let f : FChunk → Except Err FChunk := fun _ => concat fmCo cs
+    let p := pack fmCo pref (nativeOf fmCo f (fun _ => cs) hi hs hc ht)
+    pure ({ isStart := (J.strD sj "key" "") == "start", packed := p, chunks := cs, maps := ms } : FmSource))
+  -- value mode: every source's chunks are concatenated (a node's Invoke form, the caller's whole input)
+  let invoke := fmInvokeAll (srcs.map fun s => { ms := s.maps, cs := s.chunks, keys := fmKeys s.chunks })
+  -- what a source hands to its edge in a stream paradigm: a node runs its Transform form; START hands
+  -- on the caller's stream (Stream: the one-chunk stream of the whole value)
+  let delivered (s : FmSource) (split : Bool) : Except Err (List FChunk) :=
+    if s.isStart then (if split then .ok s.chunks else (concat fmCo s.chunks).map ([·]))
+    else s.packed.t [[]]
+  let streamed (split : Bool) : Except Err FChunk := do
+    let es ← srcs.mapM (fun s => do
+      let chs ← delivered s split
+      pure ({ ms := s.maps, cs := chs, keys := fmKeys chs } : FEdge))
+    fmStreamAll true es
+  pure (Json.mkObj [("invoke", fmResJ invoke), ("stream", fmResJ (streamed false)),
+    ("collect", fmResJ (streamed true)), ("transform", fmResJ (streamed true))])
+
 /-- case: {"g": graph, "input": "text", "inChunks": [sizes]} →
     {"invoke": Invoke(x), "stream": concat Stream(x), "collect": Collect(xs), "transform": concat Transform(xs),
      "orderDep": some fan-in of the stream-mode run merges streams that share a key (the
      concatenation then depends on the arrival order of their chunks)} -/
 def handle (c : Json) : JE Json := do
   if J.strD c "kind" "" == "keyval" then return (← handleKeyVal c)
+  if J.strD c "kind" "" == "fmap" then return (← handleFMap c)
   let (gv, gs) ← parseBoth (lazyOps flatZero) (← J.field c "g")
   let (_, gd) ← parseBoth disjointOps (← J.field c "g")
   let x ← J.str c "input"
